@@ -515,6 +515,10 @@ func c09(c *Ctx) {
 					if fn := astx.Callee(info, dc); fn != nil && fn.Name() == "Marshal" && fn.Pkg() != nil && fn.Pkg().Path() == "encoding/json" {
 						return []string{"json"}
 					}
+					// an encoder of the module that returns 'p' + protobuf (raftlog.ToBytes next to raftlog.FromBytes)
+					if fn := astx.Callee(info, dc); fn != nil && c.pEncoder(fn) {
+						return []string{"p"}
+					}
 					return []string{"value of unknown origin"}
 				}
 				if id, ok := e.(*ast.Ident); ok {
@@ -577,7 +581,7 @@ func c09(c *Ctx) {
 			if fn == nil {
 				return false
 			}
-			if fn.Name() == "Marshal" || leveldbCall(info, call, "Write", "Put") {
+			if fn.Name() == "Marshal" || leveldbCall(info, call, "Write", "Put") || c.pEncoder(fn) {
 				return true
 			}
 			nm := fname(fn)
@@ -642,8 +646,40 @@ func c09(c *Ctx) {
 		for _, rv := range g.Returns() {
 			rs := rv.Node.(*ast.ReturnStmt)
 			if len(rs.Results) == 1 {
-				for _, call := range astx.Calls(rs.Results[0], false) {
-					if se, isSel := ast.Unparen(call.Fun).(*ast.SelectorExpr); isSel && se.Sel.Name == "Write" {
+				isWrite := func(e ast.Expr) bool {
+					for _, call := range astx.Calls(e, false) {
+						if se, isSel := ast.Unparen(call.Fun).(*ast.SelectorExpr); isSel && se.Sel.Name == "Write" {
+							return true
+						}
+					}
+					return false
+				}
+				if isWrite(rs.Results[0]) {
+					ok = true
+				}
+				// … or an error variable that holds it (the write wrapped in timing / counting: err := …Write(…); …; return err)
+				if id, isID := ast.Unparen(rs.Results[0]).(*ast.Ident); isID && !isNilIdent(info, id) {
+					seen := map[types.Object]bool{}
+					var holds func(o types.Object, depth int) bool
+					holds = func(o types.Object, depth int) bool {
+						if o == nil || seen[o] || depth > 3 {
+							return false
+						}
+						seen[o] = true
+						for _, d := range defsOf(info, fi.Node(), o) {
+							if d == nil {
+								continue
+							}
+							if isWrite(d) {
+								return true
+							}
+							if did, isD := ast.Unparen(d).(*ast.Ident); isD && holds(astx.Obj(info, did), depth+1) {
+								return true
+							}
+						}
+						return false
+					}
+					if holds(astx.Obj(info, id), 0) {
 						ok = true
 					}
 				}
@@ -865,21 +901,50 @@ func c09(c *Ctx) {
 		}
 		r.Check(okRange, "C09.L4", gbi.Name(), "range is [start, limit)", c.P.Pos(gbi.Node().Pos()), "util.Range{Start: f(start), Limit: f(limit)}", "GetBulkIterator does not build the LevelDB range from start and limit in that order")
 		n := 0
-		for _, fi := range c.P.AllFuncs {
-			for _, call := range callsIn(fi, func(fn *types.Func, _ *ast.CallExpr) bool { return fn == gbi.Obj }) {
-				n++
-				ok := false
-				if len(call.Args) == 2 {
-					if be, isBE := ast.Unparen(call.Args[1]).(*ast.BinaryExpr); isBE && be.Op == token.ADD {
-						if v, isC := astx.ConstInt(fi.Info(), be.Y); isC && v == 1 {
-							ok = true
+		// half-open functions: GetBulkIterator, and any function that hands its own (never reassigned) parameter on as the
+		// limit — its callers are held to the rule instead
+		type halfOpen struct {
+			fn  *types.Func
+			arg int
+		}
+		work := []halfOpen{{gbi.Obj, 1}}
+		seenHO := map[*types.Func]bool{gbi.Obj: true}
+		for len(work) > 0 {
+			ho := work[0]
+			work = work[1:]
+			for _, fi := range c.P.AllFuncs {
+				for _, call := range callsIn(fi, func(fn *types.Func, _ *ast.CallExpr) bool { return fn == ho.fn }) {
+					n++
+					ok := false
+					why := load.FuncName(ho.fn) + "(lo, hi+1)"
+					if ho.arg < len(call.Args) {
+						if be, isBE := ast.Unparen(call.Args[ho.arg]).(*ast.BinaryExpr); isBE && be.Op == token.ADD {
+							if v, isC := astx.ConstInt(fi.Info(), be.Y); isC && v == 1 {
+								ok = true
+							}
+							if v, isC := astx.ConstInt(fi.Info(), be.X); isC && v == 1 {
+								ok = true
+							}
 						}
-						if v, isC := astx.ConstInt(fi.Info(), be.X); isC && v == 1 {
-							ok = true
+						if id, isID := ast.Unparen(call.Args[ho.arg]).(*ast.Ident); isID && !ok && fi.Obj != nil {
+							po := astx.Obj(fi.Info(), id)
+							k := 0
+							for _, fld := range fi.FuncType().Params.List {
+								for _, nm := range fld.Names {
+									if fi.Info().Defs[nm] == po && po != nil && len(defsOfIn(fi.Info(), fi.Body(), po)) == 0 {
+										ok, why = true, "forwards its own exclusive limit (its callers are checked)"
+										if !seenHO[fi.Obj] {
+											seenHO[fi.Obj] = true
+											work = append(work, halfOpen{fi.Obj, k})
+										}
+									}
+									k++
+								}
+							}
 						}
 					}
+					r.Check(ok, "C09.L4", fi.Name(), "passes its inclusive upper bound + 1", c.P.Pos(call.Pos()), why, "the caller hands its inclusive upper bound to the half-open "+load.FuncName(ho.fn)+" without adding 1: the last entry is silently left out (not deleted / not persisted / not listed)")
 				}
-				r.Check(ok, "C09.L4", fi.Name(), "passes its inclusive upper bound + 1", c.P.Pos(call.Pos()), "GetBulkIterator(lo, hi+1)", "the caller hands its inclusive upper bound to the half-open GetBulkIterator without adding 1: the last entry is silently left out (not deleted / not persisted / not listed)")
 			}
 		}
 		r.Check(n >= 5, "C09.L4", gbi.Name(), "callers enumerated", c.P.Pos(gbi.Node().Pos()), itoa(n), "fewer callers of GetBulkIterator than expected")
